@@ -88,7 +88,7 @@ ExCliTranslatePolicy(ev, op) ==
       ps == FrPolSources[k].pols
       sh == FrPolSources[k].shape IN
   /\ ev.cli.how = "exited"
-  /\ ev.cli.exit = x
+  /\ x # 9 => ev.cli.exit = x
   /\ x = 0 =>
        IF op[3] = "cedar-to-json"
        THEN /\ ev.parsed /\ ev.nlinks = 0
@@ -98,6 +98,9 @@ ExCliTranslatePolicy(ev, op) ==
                  FrEstOfWorldPol(ps[i]) = (IF FrIsStatic(ps[i]) THEN ev.static[FrTextCliId(k, i)] ELSE ev.templates[FrTextCliId(k, i)])
        ELSE /\ ev.api[1] = "ok" /\ ev.stdout = ev.api[2]
             /\ ev.orig[1] = "ok" /\ ev.back = ev.orig
+  \* a JSON policy set with links: the property only asks the CLI to reflect PolicySet::to_cedar (see FrontTranslatePolicyCli)
+  \* (the text printed for a link lists its slots in hash order, so it is not compared)
+  /\ x = 9 => ev.cli.exit = (IF ev.api[1] = "ok" THEN 0 ELSE 1)
 ExCliTranslateSchema(ev, op) ==
   LET x == FrontTranslateSchemaCli(op[2], op[3]) IN
   /\ ev.cli.how = "exited"
@@ -110,6 +113,7 @@ ExCliLink(ev, op) ==
   /\ ev.cli.exit = x
   /\ ev.cli.added = (x = 0)
   /\ ev.cli.recorded = (x = 0 /\ FrPolSources[op[2]].shape = "links")
+  /\ ev.cli.kept
 
 Explained(ev) ==
   IF ev.ev = "FrontSetup" THEN TRUE
